@@ -8,7 +8,7 @@ use crate::contracts::tokens::TokBase;
 use crate::examples::timelock_controller::{OperationMeta, TimelockController};
 use crate::report::Report;
 use crate::rng::Rng;
-use crate::world::{invoke, tag, Fail, Inv, World};
+use crate::world::{Must, invoke, tag, Fail, Inv, World};
 use crate::Cfg;
 use soroban_sdk::auth::{Context, ContractContext};
 use soroban_sdk::xdr::{self, ScVal};
@@ -65,7 +65,7 @@ fn effect(su: &Setup, ep: &str) -> bool {
             let r: Result<Val, Fail> = invoke(e, &su.c, "accept_admin_transfer", args!(e));
             r.is_ok()
         }
-        _ => invoke::<Option<Address>>(e, &su.c, "get_admin", args!(e)).unwrap().is_none(),
+        _ => invoke::<Option<Address>>(e, &su.c, "get_admin", args!(e)).must("get_admin").is_none(),
     }
 }
 
@@ -80,9 +80,9 @@ fn metas_val(e: &Env, metas: &[OperationMeta]) -> ScVal {
 
 fn op_state(su: &Setup, id: &BytesN<32>) -> u32 {
     let e = &su.w.env;
-    let exists: bool = invoke(e, &su.c, "operation_exists", args!(e, id.clone())).unwrap();
-    let ready: bool = invoke(e, &su.c, "is_operation_ready", args!(e, id.clone())).unwrap();
-    let done: bool = invoke(e, &su.c, "is_operation_done", args!(e, id.clone())).unwrap();
+    let exists: bool = invoke(e, &su.c, "operation_exists", args!(e, id.clone())).must("operation_exists");
+    let ready: bool = invoke(e, &su.c, "is_operation_ready", args!(e, id.clone())).must("is_operation_ready");
+    let done: bool = invoke(e, &su.c, "is_operation_done", args!(e, id.clone())).must("is_operation_done");
     match (exists, ready, done) {
         (false, _, _) => 0,
         (_, _, true) => 3,
@@ -109,7 +109,7 @@ fn build_auth(su: &Setup, ep: &str, a: &SVec<Val>, metas: Option<&[OperationMeta
 fn drive_state(su: &Setup, ep: &str, a: &SVec<Val>, pred: &BytesN<32>, salt: &BytesN<32>, state: &str) -> BytesN<32> {
     let e = &su.w.env;
     e.mock_all_auths();
-    let id: BytesN<32> = invoke(e, &su.c, "hash_operation", args!(e, su.c, Symbol::new(e, ep), a.clone(), pred.clone(), salt.clone())).unwrap();
+    let id: BytesN<32> = invoke(e, &su.c, "hash_operation", args!(e, su.c, Symbol::new(e, ep), a.clone(), pred.clone(), salt.clone())).must("hash_operation");
     if state == "unset" {
         return id;
     }
@@ -421,7 +421,7 @@ fn foreign_context(cfg: &Cfg, rep: &mut Report) {
         e.set_auths(&[entry]);
         let got: Result<(), Fail> = invoke(e, &tok, "transfer", a);
         rep.evaluations += 1;
-        let bal: i128 = invoke(e, &tok, "balance", args!(e, su.c)).unwrap();
+        let bal: i128 = invoke(e, &tok, "balance", args!(e, su.c)).must("balance");
         rep.op(format!("token.transfer(from=controller) with {shape} descriptor list -> {} (controller balance {bal})", tag(&got)));
         rep.case(format!("foreign/{shape}/{}", tag(&got)));
         rep.check("bypass", got.is_err() && bal == 1000, &format!("C09/bypass/foreign-contract-call/authorized-on-behalf-of-controller/{shape}"), || {
@@ -461,7 +461,7 @@ fn role_gates(cfg: &Cfg, rep: &mut Report) {
                         r.expect("schedule");
                         su.w.set_ledger(su.w.ledger() + 5);
                     }
-                    let id: BytesN<32> = invoke(e, &su.c, "hash_operation", args!(e, target, fnb.clone(), ta.clone(), zero.clone(), zero.clone())).unwrap();
+                    let id: BytesN<32> = invoke(e, &su.c, "hash_operation", args!(e, target, fnb.clone(), ta.clone(), zero.clone(), zero.clone())).must("hash_operation");
                     let a: SVec<Val> = match f {
                         "schedule_op" => args!(e, target, fnb.clone(), ta.clone(), zero.clone(), zero.clone(), 5u32, caller),
                         "cancel_op" => args!(e, id.clone(), caller),
@@ -592,11 +592,11 @@ impl Long {
                 format!("after {after}: operation #{i} {:?} salt {} is in state {got}, model says {want} (0 unset, 1 waiting, 2 ready, 3 done); ready ledger {} now {}", self.ops[i].call, self.ops[i].salt, self.ops[i].ready, self.su.w.ledger())
             });
         }
-        let d: u32 = invoke(e, &self.su.c, "get_min_delay", args!(e)).unwrap();
+        let d: u32 = invoke(e, &self.su.c, "get_min_delay", args!(e)).must("get_min_delay");
         ok &= rep.check("ref", d == self.min_delay, "C09/ref/long/min-delay", || format!("after {after}: minimum delay {d}, model {}", self.min_delay));
         for a in 0..4 {
             for r in 0..3 {
-                let h = invoke::<Option<u32>>(e, &self.su.c, "has_role", args!(e, self.acc[a], Symbol::new(e, ROLES[r]))).unwrap().is_some();
+                let h = invoke::<Option<u32>>(e, &self.su.c, "has_role", args!(e, self.acc[a], Symbol::new(e, ROLES[r]))).must("has_role").is_some();
                 ok &= rep.check("ref", h == self.has[a][r], "C09/ref/long/role-table", || format!("after {after}: account {a} role {}: contract says {h}, model {}", ROLES[r], self.has[a][r]));
             }
         }
@@ -697,7 +697,7 @@ fn long_history(rep: &mut Report, rng: &mut Rng, h: u64, steps: usize) {
             let exec_ok = !m.executors_configured() || xj.map_or(false, |j| m.has[j][2] && xsigned);
             let one_meta = shape == "proper" || shape == "wrong_salt" || shape == "wrong_pred";
             let op_ok = entry.map_or(false, |i| m.model_state(i) == 2 && m.pred_done(&m.ops[i], &zero));
-            let id_obs: BytesN<32> = invoke(&e, &m.su.c, "hash_operation", args!(&e, t, Symbol::new(&e, f), a.clone(), mpred.clone(), saltb(msalt))).unwrap();
+            let id_obs: BytesN<32> = invoke(&e, &m.su.c, "hash_operation", args!(&e, t, Symbol::new(&e, f), a.clone(), mpred.clone(), saltb(msalt))).must("hash_operation");
             let executor = xj.map(|j| m.acc[j].clone());
             if let Call::Bump(k) = call {
                 // external target: through execute_op; descriptor shapes do not apply
